@@ -552,6 +552,20 @@ func StartWatchdog(limit time.Duration) {
 	})
 }
 
+// InFlightOnDisk writes the case to <out>/inflight-<shard>-<check>.json before it runs, for checks in which the
+// process can die without a chance to report (race detector with halt_on_error, fatal runtime errors). The
+// returned function removes the mark.
+func InFlightOnDisk(check string, cs interface{}, message string) func() {
+	if E.Out == "" {
+		return func() {}
+	}
+	raw, _ := json.Marshal(cs)
+	b, _ := json.MarshalIndent(Failure{Property: E.Prop, Check: check, Case: raw, Message: message}, "", " ")
+	p := filepath.Join(E.Out, fmt.Sprintf("inflight-%d-%s.json", E.Shard, check))
+	os.WriteFile(p, b, 0o644)
+	return func() { os.Remove(p) }
+}
+
 // Idle tells the watchdog that nothing is in flight.
 func Idle() {
 	wdMu.Lock()
